@@ -26,6 +26,10 @@
 #include <fstream>
 #include <functional>
 #include <utility>
+#include <optional>
+#include <deque>
+#include <algorithm>
+#include <chrono>
 #include <dune/common/exceptions.hh>
 #include <dune/common/fvector.hh>
 #include <dune/common/dynvector.hh>
@@ -39,6 +43,39 @@
 static long g_allreduce = 0;
 extern "C" int MPI_Allreduce(const void* s, void* r, int c, MPI_Datatype d, MPI_Op op, MPI_Comm comm)
 { ++g_allreduce; return PMPI_Allreduce(s, r, c, d, op, comm); }
+
+// Requests posted by the code under test (X cases): started by MPI_Irecv / MPI_Isend, completion not yet observed through
+// MPI_Wait / MPI_Test, not released by MPI_Request_free.  The size of this set is the observation "requests posted in MPI".
+static bool g_track = false;
+static long g_waitms = 3000;
+struct WaitTimeout {};
+static std::vector<MPI_Request> g_posted;
+static void untrack(MPI_Request r) { auto it = std::find(g_posted.begin(), g_posted.end(), r); if (it != g_posted.end()) g_posted.erase(it); }
+extern "C" int MPI_Irecv(void* b, int n, MPI_Datatype d, int src, int tag, MPI_Comm c, MPI_Request* r)
+{ int rc = PMPI_Irecv(b, n, d, src, tag, c, r); if (g_track) g_posted.push_back(*r); return rc; }
+extern "C" int MPI_Isend(const void* b, int n, MPI_Datatype d, int dst, int tag, MPI_Comm c, MPI_Request* r)
+{ int rc = PMPI_Isend(b, n, d, dst, tag, c, r); if (g_track) g_posted.push_back(*r); return rc; }
+extern "C" int MPI_Request_free(MPI_Request* r) { if (g_track) untrack(*r); return PMPI_Request_free(r); }
+extern "C" int MPI_Test(MPI_Request* r, int* flag, MPI_Status* s)
+{ MPI_Request old = *r; int rc = PMPI_Test(r, flag, s); if (g_track && *flag && old != MPI_REQUEST_NULL) untrack(old); return rc; }
+// X cases: MPI_Wait = poll MPI_Test (same effect on the request); a request nothing completes within g_waitms is reported
+// by an exception instead of blocking the whole launch
+extern "C" int MPI_Wait(MPI_Request* r, MPI_Status* s)
+{
+  if (!g_track || *r == MPI_REQUEST_NULL) return PMPI_Wait(r, s);
+  MPI_Request old = *r;
+  auto t0 = std::chrono::steady_clock::now();
+  for (;;) {
+    int flag = 0; int rc = PMPI_Test(r, &flag, s);
+    if (flag) { untrack(old); return rc; }
+    if (std::chrono::duration_cast<std::chrono::milliseconds>(std::chrono::steady_clock::now() - t0).count() > g_waitms) {
+      // after three time-outs in one launch the remaining cases wait only briefly (the check re-runs reported cases alone)
+      static int ntimeouts = 0; if (++ntimeouts >= 3 && g_waitms > 20) g_waitms = 20;
+      throw WaitTimeout();
+    }
+    usleep(100);
+  }
+}
 
 static int g_rank = 0, g_size = 1;
 static volatile long g_case = -1;
@@ -411,6 +448,118 @@ static std::string future_seq(const FCase& c)
   return "UNSUPPORTED";
 }
 
+// ------------------------------------------------------------------------------------------------ several futures / posted requests
+//   X P M multi pay wrap salt nslots actor script        script: '-' separated steps executed by rank `actor` (partner = actor+1 mod P)
+//     p<s> slot_s = comm.irecv(buffer, partner, tag)  (construction if the slot has no object, move assignment otherwise)
+//     q<s> slot_s = comm.isend(value, partner, tag+1)
+//     c<s><t> F slot_t(std::move(slot_s))    a<s><t> slot_t = std::move(slot_s)    x<s> destroy slot_s
+//     v<s> r<s> w<s> g<s> member calls      S  the partner sends its next message (two harness barriers around the send)
+//   observation of the actor: one token per step  <step><result>/<number of requests posted in MPI>, then E/<n> after all slots
+//   were destroyed;  <step>T = MPI_Wait did not return within C19_WAITMS (the rest of the script is skipped)
+template<class T> struct XPay;
+template<> struct XPay<int> { static int blank() { return -1; } static int msg(int v) { return v; } static int count() { return 1; } static MPI_Datatype type() { return MPI_INT; } };
+template<> struct XPay<std::vector<double>> {
+  static std::vector<double> blank() { return std::vector<double>(3, -1.0); }
+  static std::vector<double> msg(int v) { return std::vector<double>{10.0 * v, 10.0 * v + 1, 10.0 * v + 2}; }
+  static int count() { return 3; } static MPI_Datatype type() { return MPI_DOUBLE; } };
+
+template<class T, bool ERASED>
+static std::string run_x(int salt, int nslots, int actor, const std::vector<std::string>& steps, long caseno)
+{
+  using V = std::decay_t<T>;
+  using MF = Dune::MPIFuture<T>;
+  using F = std::conditional_t<ERASED, Dune::Future<T>, MF>;
+  Dune::Communication<MPI_Comm> cc(g_wdup);
+  const int P = g_size, partner = (actor + 1) % P, tag = 40000 + 2 * (int)(caseno % 100000);
+  const bool me_actor = g_rank == actor, me_partner = g_rank == partner;
+  std::deque<V> store;                          // lvalue buffers of the reference payloads (outlive every future)
+  std::deque<V> sent; std::deque<MPI_Request> sreq;   // partner side
+  std::vector<std::optional<F>> slot(nslots);
+  std::string out; bool aborted = false; int nmsg = 0, npost = 0, nq = 0;
+  auto tok = [&](const std::string& t) { if (!out.empty()) out += " "; out += t + "/" + std::to_string(g_posted.size()); };
+  auto start = [&](bool snd) -> MF {
+    int h = npost++;
+    if constexpr (std::is_reference_v<T>) {
+      store.push_back(snd ? XPay<V>::msg(7000 + h) : XPay<V>::blank());
+      return snd ? cc.isend(store.back(), partner, tag + 1) : cc.irecv(store.back(), partner, tag);
+    } else
+      return snd ? cc.isend(V(XPay<V>::msg(7000 + h)), partner, tag + 1) : cc.irecv(V(XPay<V>::blank()), partner, tag);
+  };
+  g_posted.clear();
+  for (const std::string& st : steps) {
+    if (st == "S") {
+      MPI_Barrier(g_hcomm);
+      if (me_partner) {
+        ++nmsg; sent.push_back(XPay<V>::msg(100 * (salt + 1) + nmsg)); sreq.push_back(MPI_REQUEST_NULL);
+        void* ptr; if constexpr (std::is_same_v<V, int>) ptr = &sent.back(); else ptr = sent.back().data();
+        PMPI_Isend(ptr, XPay<V>::count(), XPay<V>::type(), actor, tag, g_wdup, &sreq.back());
+      }
+      MPI_Barrier(g_hcomm);
+      if (me_actor && !aborted) tok("S.");
+      continue;
+    }
+    if (st[0] == 'q') ++nq;
+    if (!me_actor || aborted) continue;
+    const char c = st[0]; const int s = st.size() > 1 ? st[1] - '0' : 0, t = st.size() > 2 ? st[2] - '0' : 0;
+    if (s < 0 || s >= nslots || t < 0 || t >= nslots) { tok(st + "?"); continue; }
+    g_track = true;
+    try {
+      switch (c) {
+        case 'p': case 'q':
+          if (!slot[s]) slot[s].emplace(start(c == 'q')); else *slot[s] = F(start(c == 'q'));
+          g_track = false; tok(st + "."); break;
+        case 'c':
+          if (slot[s] && !slot[t]) { slot[t].emplace(std::move(*slot[s])); g_track = false; tok(st + "."); } else { g_track = false; tok(st + "?"); }
+          break;
+        case 'a':
+          if (slot[s] && slot[t]) { F& src = *slot[s]; *slot[t] = std::move(src); g_track = false; tok(st + "."); } else { g_track = false; tok(st + "?"); }
+          break;
+        case 'x':
+          if (slot[s]) { slot[s].reset(); g_track = false; tok(st + "."); } else { g_track = false; tok(st + "?"); }
+          break;
+        case 'v': if (slot[s]) { bool b = slot[s]->valid(); g_track = false; tok(st + (b ? "1" : "0")); } else { g_track = false; tok(st + "?"); } break;
+        case 'r': if (slot[s]) { bool b = slot[s]->ready(); g_track = false; tok(st + (b ? "1" : "0")); } else { g_track = false; tok(st + "?"); } break;
+        case 'w': if (slot[s]) { slot[s]->wait(); g_track = false; tok(st + "."); } else { g_track = false; tok(st + "?"); } break;
+        case 'g': if (slot[s]) { auto&& x = slot[s]->get(); g_track = false; tok(st + show(x)); } else { g_track = false; tok(st + "?"); } break;
+        default: g_track = false; tok(st + "??");
+      }
+    } catch (Dune::InvalidFutureException&) { g_track = false; tok(st + "X");
+    } catch (WaitTimeout&) { g_track = false; tok(st + "T"); aborted = true;
+    } catch (Dune::Exception& e) { g_track = false; tok(st + "?E(" + typeid(e).name() + ")"); }
+  }
+  if (me_actor) {
+    g_track = true;
+    try { for (auto& sl : slot) sl.reset(); } catch (...) {}
+    g_track = false;
+    tok("E");
+    // not part of the observation: withdraw what the code under test left posted, so that the next case starts clean
+    for (MPI_Request r : g_posted) { PMPI_Cancel(&r); PMPI_Request_free(&r); }
+    g_posted.clear();
+  }
+  MPI_Barrier(g_hcomm);
+  if (me_partner) {
+    for (int i = 0; i < nq; ++i) { V scratch = XPay<V>::blank(); void* ptr; if constexpr (std::is_same_v<V, int>) ptr = &scratch; else ptr = scratch.data();
+                                   PMPI_Recv(ptr, XPay<V>::count(), XPay<V>::type(), actor, tag + 1, g_wdup, MPI_STATUS_IGNORE); }
+    for (MPI_Request& r : sreq) if (r != MPI_REQUEST_NULL) PMPI_Wait(&r, MPI_STATUS_IGNORE);
+  }
+  return me_actor ? out : std::string("-");
+}
+
+static std::string run_x_case(const std::vector<std::string>& t, long caseno)
+{
+  const char pay = t[4][0]; const bool er = t[5] == "e";
+  const int salt = atoi(t[6].c_str()), nslots = atoi(t[7].c_str()), actor = atoi(t[8].c_str());
+  std::vector<std::string> steps; { std::string cur; for (char ch : t[9]) { if (ch == '-') { steps.push_back(cur); cur.clear(); } else cur += ch; } steps.push_back(cur); }
+  if (nslots < 1 || nslots > 9 || actor < 0 || actor >= g_size) return "BAD-CASE";
+  switch (pay) {
+    case 'i': return er ? run_x<int, true>(salt, nslots, actor, steps, caseno) : run_x<int, false>(salt, nslots, actor, steps, caseno);
+    case 'j': return er ? run_x<int&, true>(salt, nslots, actor, steps, caseno) : run_x<int&, false>(salt, nslots, actor, steps, caseno);
+    case 'v': return er ? run_x<std::vector<double>, true>(salt, nslots, actor, steps, caseno) : run_x<std::vector<double>, false>(salt, nslots, actor, steps, caseno);
+    case 'w': return er ? run_x<std::vector<double>&, true>(salt, nslots, actor, steps, caseno) : run_x<std::vector<double>&, false>(salt, nslots, actor, steps, caseno);
+  }
+  return "UNSUPPORTED";
+}
+
 // ------------------------------------------------------------------------------------------------ main
 static std::vector<std::string> split(const std::string& s, char d)
 {
@@ -429,6 +578,7 @@ int main(int argc, char** argv)
   MPI_Comm_dup(MPI_COMM_WORLD, &g_wdup);
   MPI_Comm_split(MPI_COMM_WORLD, 0, -g_rank, &g_rev);
   int alarm_s = getenv("C19_ALARM") ? atoi(getenv("C19_ALARM")) : 20;
+  if (getenv("C19_WAITMS")) g_waitms = atol(getenv("C19_WAITMS"));
   signal(SIGALRM, on_alarm);
   std::ifstream in(argv[1]);
   FILE* out = fopen((std::string(argv[2]) + "." + std::to_string(g_rank)).c_str(), "w");
@@ -509,6 +659,10 @@ int main(int argc, char** argv)
       } catch (UserExc&) { outer = "P"; }
       res = inner + "/" + outer + ":" + std::to_string(g_allreduce - c1);
       (void)c0;
+    }
+    else if (t.size() >= 10 && t[0] == "X") {
+      try { res = run_x_case(t, caseno); }
+      catch (Dune::Exception& e) { g_track = false; res = std::string("?E(") + typeid(e).name() + ")"; }
     }
     else if (t.size() >= 10 && t[0] == "F") {
       FCase c{atoi(t[1].c_str()), t[2], t[3], t[4], t[5], atoi(t[6].c_str()), atoi(t[7].c_str()), t[8], t[9]};
